@@ -50,7 +50,7 @@ def bconst(n):
 
 
 def lean_str(s: str) -> str:
-    return '"' + s.replace("\\", "\\\\").replace('"', '\\"').replace("\n", "\\n") + '"'
+    return '"' + s.replace("\\", "\\\\").replace('"', '\\"').replace("\n", "\\n").replace("\r", "\\r") + '"'
 
 
 def lean_list(xs, f=str):
@@ -194,6 +194,94 @@ def entity_map(out):
     siid = [ast.unparse(n.value) for n in sinit.body if isinstance(n, ast.Assign) and isinstance(n.targets[0], ast.Attribute) and n.targets[0].attr == "iid"]
     out["EntityMap"] = {"ser": ser, "ctor": ctor, "consts": consts, "defaults": dft, "coerce": coerce, "forward": fwd, "kwargs0": kw0,
                         "loadGuards": guards, "serviceSerGuards": sguards, "serviceIid": siid}
+
+
+@extractor
+def misc_numbers(out):
+    """numeric literals and names at anchored AST shapes for C06 (CoAP resynchronisation window), C07 (framing header names),
+    C14 (decimal context), C18 (state-number candidates), C19 (BLE advertisement layout)"""
+    d = {}
+    # ---- C14
+    t = parse("model/characteristics/characteristic.py")
+    f = func(t, "check_convert_value")
+    precs, rounds, guards = [], [], []
+    for n in ast.walk(f):
+        if isinstance(n, ast.If):
+            for b in n.body:
+                if isinstance(b, ast.Assign) and isinstance(b.targets[0], ast.Attribute) and b.targets[0].attr == "prec":
+                    precs.append(b.value.value)
+                    guards.append(ast.unparse(n.test))
+        if isinstance(n, ast.Assign) and isinstance(n.targets[0], ast.Attribute) and n.targets[0].attr == "rounding":
+            rounds.append(ast.unparse(n.value))
+    ints = None
+    for n in t.body:
+        if isinstance(n, ast.Assign) and getattr(n.targets[0], "id", "") == "INTEGER_TYPES":
+            ints = [e.attr for e in n.value.elts]
+    finals = [ast.unparse(n.value) for n in ast.walk(f) if isinstance(n, ast.Assign) and getattr(n.targets[0], "id", "") == "val" and isinstance(n.value, ast.Call)
+              and getattr(n.value.func, "id", "") in ("int", "float")]
+    if len(precs) != 1 or len(rounds) != 1 or ints is None:
+        raise Shape("misc_numbers: decimal context of check_convert_value")
+    d["convert"] = {"prec": precs[0], "precGuard": guards[0], "rounding": rounds[0], "integerTypes": ints, "finals": finals}
+    # ---- C18
+    t = parse("controller/ble/pairing.py")
+    mg = [n.value.value for n in t.body if isinstance(n, ast.Assign) and getattr(n.targets[0], "id", "") == "MAX_GSN"]
+    cand = None
+    for n in ast.walk(t):
+        if isinstance(n, ast.For) and isinstance(n.target, ast.Name) and n.target.id == "state_num" and isinstance(n.iter, ast.Tuple):
+            items = []
+            for e in n.iter.elts:
+                if isinstance(e, ast.Starred) and isinstance(e.value, ast.Call) and getattr(e.value.func, "id", "") == "range":
+                    a, b = e.value.args
+                    items.append(("range", a.right.value if isinstance(a, ast.BinOp) else 0, b.right.value if isinstance(b, ast.BinOp) else 0))
+                elif isinstance(e, ast.BinOp) and isinstance(e.op, ast.Add):
+                    items.append(("at", e.right.value, 0))
+                elif isinstance(e, ast.Name):
+                    items.append(("at", 0, 0))
+                else:
+                    raise Shape("misc_numbers: state-number candidates")
+            cand = items
+    if len(mg) != 1 or cand is None:
+        raise Shape("misc_numbers: MAX_GSN / candidates")
+    d["broadcast"] = {"maxGsn": mg[0], "candidates": cand}
+    # ---- C19
+    t = parse("controller/ble/manufacturer_data.py")
+    f = func(t, "from_manufacturer_data", "HomeKitAdvertisement")
+    cmps = []
+    for n in ast.walk(f):
+        if isinstance(n, ast.Compare) and isinstance(n.left, ast.Call) and getattr(n.left.func, "id", "") == "len" and isinstance(n.comparators[0], ast.Constant):
+            cmps.append((type(n.ops[0]).__name__, n.comparators[0].value))
+    slices = []
+    for n in ast.walk(f):
+        if isinstance(n, ast.Subscript) and getattr(n.value, "id", "") == "data":
+            sl = n.slice
+            if isinstance(sl, ast.Slice):
+                slices.append((sl.lower.value if sl.lower else 0, sl.upper.value if sl.upper else -1))
+            elif isinstance(sl, ast.Constant):
+                slices.append((sl.value, sl.value + 1))
+    unp = [n.func.id for n in ast.walk(f) if isinstance(n, ast.Call) and isinstance(n.func, ast.Name) and n.func.id.startswith("UNPACK")]
+    fmt = None
+    for n in t.body:
+        if isinstance(n, ast.Assign) and getattr(n.targets[0], "id", "") in unp:
+            fmt = [a.value for a in ast.walk(n.value) if isinstance(a, ast.Constant) and isinstance(a.value, str)]
+    d["bleAdv"] = {"lenChecks": sorted(cmps), "slices": sorted(set(slices)), "unpack": fmt[0] if fmt else "?"}
+    # ---- C06 CoAP resynchronisation window
+    t = parse("controller/coap/connection.py")
+    f = func(t, "_decrypt_response", "EncryptionContext")
+    mins = [n.args[0].value for n in ast.walk(f) if isinstance(n, ast.Call) and getattr(n.func, "id", "") == "min" and isinstance(n.args[0], ast.Constant)]
+    ranges = [n.iter.args[0].value for n in ast.walk(f) if isinstance(n, ast.For) and isinstance(n.iter, ast.Call) and getattr(n.iter.func, "id", "") == "range" and isinstance(n.iter.args[0], ast.Constant)]
+    if len(mins) != 1 or len(ranges) != 1:
+        raise Shape("misc_numbers: CoAP resynchronisation window")
+    d["coapResync"] = {"rewind": mins[0], "forward": ranges[0]}
+    # ---- C07 framing header names as the parser compares them
+    t = parse("http/response.py")
+    f = func(t, "parse", "HttpResponse")
+    names = []
+    for n in ast.walk(f):
+        if isinstance(n, ast.Compare) and isinstance(n.left, ast.Name) and n.left.id in ("name", "value") and isinstance(n.comparators[0], ast.Constant) and isinstance(n.comparators[0].value, str):
+            names.append((n.left.id, n.comparators[0].value))
+    seps = sorted({a.value.decode("latin1") for a in ast.walk(f) if isinstance(a, ast.Constant) and isinstance(a.value, bytes)})
+    d["http"] = {"compared": names, "byteLiterals": seps}
+    out["Misc"] = d
 
 
 @extractor
@@ -781,6 +869,31 @@ def emit_entity_map(out, files):
          "def serviceIid : List String := " + lean_list(d["serviceIid"], lean_str),
          "end HapVerif.Gen.EntityMap"]
     files["EntityMap.lean"] = "\n".join(L) + "\n"
+
+
+@emitter
+def emit_misc(out, files):
+    d = out["Misc"]
+    t2 = lambda r: f"({lean_str(r[0])}, {lean_str(r[1])})"  # noqa: E731
+    L = ["/-! GENERATED by tools/translate.py (characteristic.py, ble/pairing.py, ble/manufacturer_data.py, coap/connection.py, http/response.py) - do not edit. -/",
+         "namespace HapVerif.Gen.Misc",
+         f"def convertPrec : Nat := {d['convert']['prec']}",
+         f"def convertPrecGuard : String := {lean_str(d['convert']['precGuard'])}",
+         f"def convertRounding : String := {lean_str(d['convert']['rounding'])}",
+         "def integerTypes : List String := " + lean_list(d["convert"]["integerTypes"], lean_str),
+         "def convertFinals : List String := " + lean_list(d["convert"]["finals"], lean_str),
+         f"def maxGsn : Nat := {d['broadcast']['maxGsn']}",
+         "/-- the state numbers tried for an encrypted notification, relative to the last accepted one: (kind, a, b) = at +a | range +a .. +b -/",
+         "def gsnCandidates : List (String × Nat × Nat) := " + lean_list(d["broadcast"]["candidates"], lambda r: f"({lean_str(r[0])}, {r[1]}, {r[2]})"),
+         "def bleAdvLenChecks : List (String × Nat) := " + lean_list(d["bleAdv"]["lenChecks"], lambda r: f"({lean_str(r[0])}, {r[1]})"),
+         "def bleAdvSlices : List (Nat × Nat) := " + lean_list(d["bleAdv"]["slices"], lambda r: f"({r[0]}, {r[1]})"),
+         f"def bleAdvUnpack : String := {lean_str(d['bleAdv']['unpack'])}",
+         f"def coapRewind : Nat := {d['coapResync']['rewind']}",
+         f"def coapForward : Nat := {d['coapResync']['forward']}",
+         "def httpCompared : List (String × String) := " + lean_list(d["http"]["compared"], t2),
+         "def httpByteLiterals : List String := " + lean_list(d["http"]["byteLiterals"], lean_str),
+         "end HapVerif.Gen.Misc"]
+    files["Misc.lean"] = "\n".join(L) + "\n"
 
 
 @emitter
